@@ -6,7 +6,7 @@ CONSTANTS
   Modes = {"rw", "sp"}
   Relays = {0, 1}
   MaxCalls = 4
-  MaxIntr = 1
+  MaxIntr = 0
   MaxAgain = 2
 INVARIANT Emit
 CHECK_DEADLOCK FALSE
